@@ -276,6 +276,14 @@ func c16Grammar(rng *rand.Rand, method, pattern string, p *c16Pool, thorough boo
 			}
 			lists = append(lists, l)
 		}
+		// every pair of orphans (descendants of different orphan roots never meet: the walk that runs out)
+		npairs := 0
+		for i := 0; i < len(p.orphan) && npairs < 40; i++ {
+			for j := i + 1; j < len(p.orphan) && npairs < 40; j++ {
+				lists = append(lists, []string{p.orphan[i], p.orphan[j]})
+				npairs++
+			}
+		}
 		for _, l := range lists {
 			add("body", pattern, c16JSONType, c16JSON(l))
 		}
@@ -375,7 +383,7 @@ func c16Grammar(rng *rand.Rand, method, pattern string, p *c16Pool, thorough boo
 		}
 		// c.Bind chooses the decoder by Content-Type
 		for _, ct := range c16CTypes {
-			add("ctype", pattern, ct, c16JSON(map[string]any{"url": fmt.Sprintf("http://127.0.0.1:9/c16/ct/%d", rng.Intn(1 << 30))}))
+			add("ctype", pattern, ct, c16JSON(map[string]any{"url": fmt.Sprintf("http://127.0.0.1:9/c16/ct/%d", rng.Intn(1<<30))}))
 			add("ctype", pattern, ct, []byte(`{`))
 			add("ctype", pattern, ct, nil)
 		}
@@ -590,7 +598,9 @@ func c16MutateTarget(rng *rand.Rand, t string) string {
 				parts = append([]string{kv[0] + "=" + mutVal(kv[1])}, parts...) // shadowing duplicate in front
 			}
 		case 3:
-			parts[i] = strings.ToUpper(kv[0][:1]) + kv[0][1:] + "=" + strings.Join(kv[1:], "")
+			if len(kv[0]) > 0 {
+				parts[i] = strings.ToUpper(kv[0][:1]) + kv[0][1:] + "=" + strings.Join(kv[1:], "")
+			}
 		default:
 			if len(kv) == 2 {
 				parts[i] = kv[0] + "=" + mutVal(kv[1])
@@ -605,6 +615,9 @@ func c16MutateTarget(rng *rand.Rand, t string) string {
 	lo := 3
 	if len(segs) <= lo {
 		lo = 1
+	}
+	if len(segs) <= lo {
+		return path + "/" + pick(rng, c16Numbers[:20], "0")
 	}
 	i := lo + rng.Intn(len(segs)-lo)
 	switch rng.Intn(6) {
